@@ -188,10 +188,6 @@ impl Segment3D {
         let a = self.end - self.start;
         let b = input.end() - input.start();
 
-        if a.is_same_direction(b) {
-            return None;
-        }
-
         // check if coplanar
         let normal = a.cross(b);
         let delta = self.start() - input.start();
